@@ -182,7 +182,7 @@ Lemma toy_pipe_witness tb k : has_guard IfNotDryWrite (guards_of tb k) = false -
   lookup (final_fs (toy_run tb (toy_cfg true [[112%N]]) [toy_codemod 1 k DNone] [([112%N],[1%N])] [])) [112%N] = Some [2%N].
 Proof.
   intros H. unfold toy_run, run, toy_cfg, toy_codemod.
-  destruct k; cbn -[has_guard] in *; rewrite H;
+  destruct (t_diff tb) eqn:Ed; destruct k; cbn -[has_guard t_diff] in *; unfold diff_base; rewrite H, ?Ed; cbn -[has_guard];
   repeat match goal with |- context [has_guard ?g ?l] => destruct (has_guard g l) end; reflexivity.
 Qed.
 Lemma toy_writer_witness tb k : writer_guarded tb k = false ->
@@ -190,7 +190,7 @@ Lemma toy_writer_witness tb k : writer_guarded tb k = false ->
      [{| st_kind := k; st_path := [109%N]; st_deps := [] |}])) [109%N] = Some [9%N; 100%N].
 Proof.
   intros H. unfold toy_run, run, toy_cfg, toy_codemod.
-  cbn -[has_guard writer_guarded];
+  destruct (t_diff tb) eqn:Ed; cbn -[has_guard writer_guarded t_diff]; unfold diff_base; rewrite ?Ed; cbn -[has_guard writer_guarded];
   repeat match goal with |- context [has_guard ?g ?l] => destruct (has_guard g l) end;
   cbn -[writer_guarded]; rewrite H; reflexivity.
 Qed.
